@@ -114,7 +114,7 @@ func (q mquery) sql() string {
 	s := "SELECT k"
 	for i, it := range q.items {
 		s += ", " + it.sql()
-		if it.f.kind != "cols" {
+		if !isColsKind(it.f.kind) {
 			s += " AS a" + strconv.Itoa(i)
 		}
 	}
@@ -161,7 +161,7 @@ func (q mquery) resTok(res map[string]any) string {
 	}
 	var parts []string
 	for i, it := range q.items {
-		if it.f.kind != "cols" {
+		if !isColsKind(it.f.kind) {
 			parts = append(parts, outTok(res["a"+strconv.Itoa(i)]))
 			continue
 		}
@@ -339,6 +339,195 @@ func c14Item(rng *RNG, allowCols bool) mitem {
 	return it
 }
 
+func isColsKind(k string) bool { return k == "cols" || k == "colsstar" }
+
+// ---------------------------------------------------------------- whole-row / alias-named family
+// Queries with 2-3 analytic select items (and sometimes an analytic call in WHERE) in which one item - mostly the
+// LAST one - reads more of the row than an ordinary column: had_changed(ign, *) (whole row by column name),
+// changed_cols(prefix, ign, *) (every column of the row) or a call whose argument is an input column NAMED LIKE THE
+// ALIAS of another item (a0, a1).  The other items are calls whose result keeps changing while the input rows
+// repeat (lag right after a change, acc_sum / acc_count / latest / acc_max ...).  The rows have one fixed set of
+// columns (k, p, v, w [, g] [, a<j>]) with few values and about half of the rows repeat the previous row of their
+// partition, so "unchanged" is frequent.  The specification of every call reads the INPUT row: the results of
+// the other calls of the query are outputs, never input columns.  changed_cols(.., *) is written on the case line
+// as changed_cols over the (fixed) column set of the rows, which is its declarative reading.
+func c14StarJob(rng *RNG) (mquery, []arow, string) {
+	var q mquery
+	q.wtest = "-"
+	n := 2 + rng.Intn(2)
+	sub := []string{"named", "named", "named", "colsstar", "colsstar", "alias", "alias"}[rng.Intn(7)]
+	pos := n - 1
+	if rng.Intn(5) == 0 {
+		pos = 0
+	}
+	vcol := aexp{k: 'c', col: "v"}
+	feed := func() mitem {
+		var it mitem
+		if rng.Intn(10) < 7 {
+			var c acall
+			switch rng.Intn(7) {
+			case 0:
+				c = acall{fn: "lag", args: []aexp{vcol}}
+			case 1:
+				c = acall{fn: "lag", args: []aexp{vcol, {k: 'n', z: rng.Range(1, 2)}, {k: 'n', z: 0}}}
+			case 2, 3:
+				c = acall{fn: "sum", args: []aexp{vcol}}
+			case 4:
+				c = acall{fn: "count", args: []aexp{vcol}}
+			case 5:
+				c = acall{fn: "latest", args: []aexp{vcol}}
+			default:
+				c = acall{fn: rng.Pick([]string{"max", "min"}), args: []aexp{vcol}}
+			}
+			it.f.kind, it.f.c1 = "single", c
+			if rng.Intn(4) != 0 {
+				it.f.part = []string{"p"}
+			}
+			if rng.Intn(5) == 0 {
+				it.f.when = "g"
+			}
+			return it
+		}
+		it = c14Item(rng, false)
+		if len(it.f.part) == 2 {
+			it.f.part = []string{"p"}
+		}
+		return it
+	}
+	acol := ""
+	for i := 0; i < n; i++ {
+		if i != pos {
+			q.items = append(q.items, feed())
+			continue
+		}
+		var it mitem
+		switch sub {
+		case "named":
+			it.f.kind, it.f.ign = "named", rng.Bool()
+		case "colsstar":
+			it.f.kind, it.f.prefix, it.f.ignx = "colsstar", "c_", aexp{k: 'b', b: rng.Bool()}
+		default:
+			j := rng.Intn(n - 1)
+			if j >= pos {
+				j++
+			}
+			acol = "a" + strconv.Itoa(j)
+			ac := aexp{k: 'c', col: acol}
+			flag := aexp{k: 'b', b: rng.Bool()}
+			var c acall
+			switch rng.Intn(7) {
+			case 0:
+				c = acall{fn: "lag", args: []aexp{ac}}
+			case 1:
+				c = acall{fn: "latest", args: []aexp{ac}}
+			case 2:
+				c = acall{fn: "had", args: []aexp{flag, ac}}
+			case 3:
+				c = acall{fn: "had", args: []aexp{flag, vcol, ac}}
+			case 4:
+				c = acall{fn: "ccol", args: []aexp{flag, ac}}
+			case 5:
+				c = acall{fn: "sum", args: []aexp{ac}}
+			default:
+				c = acall{fn: rng.Pick([]string{"max", "count"}), args: []aexp{ac}}
+			}
+			it.f.kind, it.f.c1 = "single", c
+		}
+		if rng.Intn(4) != 0 {
+			it.f.part = []string{"p"}
+		}
+		if rng.Intn(6) == 0 {
+			it.f.when = "g"
+		}
+		q.items = append(q.items, it)
+	}
+	switch x := rng.Intn(20); {
+	case x < 13:
+	case x < 17: // WHERE had_changed(ign, *) OVER (..): evaluated next to the select items, on the input row
+		q.wtest = "t"
+		q.wf = afield{kind: "named", ign: rng.Bool()}
+		if rng.Intn(4) != 0 {
+			q.wf.part = []string{"p"}
+		}
+	default:
+		q.wtest = "g" + strconv.Itoa(rng.Intn(2))
+		q.wf = afield{kind: "single", c1: acall{fn: rng.Pick([]string{"lag", "sum", "count"}), args: []aexp{vcol}}, part: []string{"p"}}
+	}
+	q.cap = []int{0, 0, 3, 5}[rng.Intn(4)]
+	// rows: one fixed column set
+	useG := q.wf.when == "g"
+	for _, it := range q.items {
+		if it.f.when == "g" {
+			useG = true
+		}
+	}
+	nparts := rng.Range(1, 3)
+	if len(q.items[pos].f.part) == 0 && rng.Intn(3) != 0 {
+		nparts = 1
+	}
+	var cand []aval
+	for _, v := range c14PartPool {
+		if v.k != 'A' {
+			cand = append(cand, v)
+		}
+	}
+	for i := len(cand) - 1; i > 0; i-- {
+		j := rng.Intn(i + 1)
+		cand[i], cand[j] = cand[j], cand[i]
+	}
+	pool := cand[:nparts]
+	last := make([]arow, nparts)
+	nrows := rng.Range(6, 30)
+	rows := make([]arow, 0, nrows)
+	small := func() aval {
+		switch x := rng.Intn(20); {
+		case x < 2:
+			return aval{k: 'N'}
+		case x < 3:
+			return aval{k: 'd', z: rng.Range(1, 3)}
+		}
+		return aval{k: 'i', z: rng.Range(1, 4)}
+	}
+	cell := func(col string, v aval) struct {
+		col string
+		v   aval
+	} {
+		return struct {
+			col string
+			v   aval
+		}{col, v}
+	}
+	for i := 0; i < nrows; i++ {
+		pi := rng.Intn(nparts)
+		if last[pi] != nil && rng.Intn(100) < 50 {
+			rows = append(rows, last[pi]) // the previous row of the partition again
+			continue
+		}
+		r := arow{cell("k", aval{k: 'i', z: 1}), cell("p", pool[pi]), cell("v", small()), cell("w", aval{k: 'i', z: rng.Intn(2)})}
+		if useG {
+			g := aval{k: 'i', z: 1}
+			if rng.Intn(10) < 3 {
+				g.z = 0
+			}
+			r = append(r, cell("g", g))
+		}
+		if acol != "" {
+			r = append(r, cell(acol, aval{k: 'i', z: rng.Range(1, 3)}))
+		}
+		rows = append(rows, r)
+		last[pi] = r
+	}
+	if sub == "colsstar" {
+		var cs []string
+		for _, c := range rows[0] {
+			cs = append(cs, c.col)
+		}
+		sort.Strings(cs)
+		q.items[pos].f.cols = cs
+	}
+	return q, rows, sub
+}
+
 func c14MQuery(rng *RNG) mquery {
 	var q mquery
 	n := []int{1, 1, 2, 2, 2, 3}[rng.Intn(6)]
@@ -398,10 +587,16 @@ func runC14M(tier string, rng *RNG, o *Out) error {
 	}
 	jobs := make([]job, nq)
 	evict := make([]bool, nq)
+	star := make([]string, nq)
 	for i := range jobs {
 		q := c14MQuery(rng)
 		rows := c14Rows(rng, aquery{})
-		if rng.Intn(100) < 15 {
+		fam := rng.Intn(100)
+		if fam >= 15 && fam < 33 {
+			// whole-row / alias-named family (c14StarJob): a call's input is the INPUT row only
+			q, rows, star[i] = c14StarJob(rng)
+		}
+		if fam < 15 {
 			// eviction family (c14.go c14EvictRows): every item partitioned by p, most of them (and the WHERE call)
 			// gated by WHEN g > 0, cap below the number of partitions, partitions that return after their eviction
 			evict[i] = true
@@ -471,6 +666,10 @@ func runC14M(tier string, rng *RNG, o *Out) error {
 		o.Count(fmt.Sprintf("m_items_%d", len(q.items)))
 		if evict[i] {
 			o.Count("m_evict_family")
+		}
+		if star[i] != "" {
+			o.Count("m_star_family")
+			o.Count("m_star_" + star[i])
 		}
 		for _, it := range q.items {
 			o.Count("m_item_" + it.f.kind)
